@@ -29,6 +29,12 @@ dialects and capabilities and every sufficiently large call depth.
   (no `sqlType=`), `char_binary = None`, `varchar` as resolved by `SOStringLikeCol.__init__` / `SOBLOBCol.__init__`
   (`varcharEff`), `length` (`0` for none), `cascade` ∈ None / True / False / `'null'`, `refColumn = None`,
   `enumValues` (a list of `str` / `None`).  The `__init__` methods are not translated.
+* Further images are defined next to the lemmas that use them: `soClassV` / `metaV` (`Lemmas/DdlXId.lean`: `sqlmeta.table`,
+  `idName`, `idType`, `idSize`, `columnList`), `styleV` (`Lemmas/DdlXStyle.lean`: a style object with `longID`), `jV` /
+  `joinClsV` (`Lemmas/DdlXJoin.lean`: a join with `intermediateTable`, `joinColumn`, `otherColumn`, `soClass.__name__`,
+  `otherClass.__name__`, an optional `createRelatedTable`; `sqlmeta.joins` may contain `None`).
+* `capword('')` / `lowerword('')` raise IndexError in Python and in the translation; the hand model returns `''` there, so
+  the style theorems are stated for non-empty words.
 * `self.connection = connection` inside `mysqlCreateSQL` / `mssqlCreateSQL` rebinds `self` for the rest of that call
   (value semantics; the translator accepts no other attribute assignment).
 -/
